@@ -114,6 +114,27 @@ PROPS["C07"] = {
         "level_note": "Trusted: Lean kernel, harness/driver, binary64 multiplication for the bit-exact temperatures. The model assumes observers leave events untouched; the check reports where crem's message observer does not (D21).",
     }
 
+PROPS["C09"] = {
+        "suites": [
+            {"name": "boolarchive-ops", "shards": 4},
+            {"name": "portability", "quick_shards": 3, "shards": 8},
+        ],
+        "rule": "boolarchive-ops: the real pkg/archive.BooleanArchive is driven through an interpreter of protocol lines (new/set/get/enc/dec/eqv/state/bits/fill + spec-enc/spec-dec against the abstract spec + check/checkpair = the property's clauses evaluated on the implementation); sizes 0..200; all 2^n bit patterns for n<=10; for every size 1..200 structured patterns (zeros, ones, single bit set/cleared at 0,1,31,32,62..66,126..130,190..193,199,n-1, alternating) and random densities; every pattern is filled the way ModelCompressor does, encoded, decoded into a second archive holding other values and a memoised text, compared (raw words and cached text through an add-only accessor); random interleavings of SetValue/Value/Encoding/Decode/IsEquivalentTo over three archives with in-range, boundary, >=size and negative indices, canonical / non-canonical (lower case, leading zeros, garbage above size) / malformed texts (wrong entry count, empty, bad digits, sign, 0x, _, spaces, control and non-ASCII characters, 17-digit overflow, two errors of different class); result classes compared. One evaluation = one protocol line compared with the model. distinct_nontrivial = distinct (size>=1, op kind, word index touched | out-of-range class, cache state before the op, result class). portability: real catchment model + real ModelCompressor on the three shipped CSV datasets (13, 15, 13 actions) and two synthetic ones (78 and 130 actions = shipped data replicated with shifted planning-unit ids): quick = all-off, all-on, every single action and 150 random sets per dataset, thorough = all 2^13 / 2^15 / 2^13 sets of the shipped datasets; every set is reached twice (fresh instance in index order; long-lived instance toggled in random order), compressed, its text decoded and decompressed (the engine's Compress/Decode/Decompress sequence) into an independently constructed instance (catchment.Model with its own dataset load, CoreModel on a freshly loaded dataset, or DeepClone: each re-gathers its actions from Go maps), 30% of the receivers pre-set to a random other state; compared: sorted (planning unit, type) lists, active sets, re-derived text, IsEquivalentTo, every decision-variable value (exact float equality); the model checks text = encode(bits) and decode(text) = bits; `order` lines carry the real pre-sort (map iteration) order of each construction (accessor) to the model's sort, with hypothesis H (keys distinct) evaluated on each; thorough adds a Gray-code walk through all sets checking that no two share a text. distinct_nontrivial = distinct (dataset, non-empty action set, route, receiver kind) + distinct gathered orders.",
+        "trusted": [
+            "sort.Sort is not transcribed: it is assumed to return a permutation of its input that is sorted for Less (the theorems then fix the result uniquely); strconv.ParseUint(.,16,64), fmt %X and strings.Split are modelled (parseHex/toHex/splitOn) and validated by the correspondence, not verified",
+            "Go strings are byte strings, the model's are Unicode code-point lists: the harness only sends valid UTF-8 (':' and hex digits are ASCII, so splitting and digit classification agree; a multi-byte character is a syntax error at the same position on both sides)",
+            "add-only accessors (build tag verif): BooleanArchive.VerifWords/VerifCachedEncoding (read-only copies), CoreModel.VerifGatherActions (re-runs the unexported, side-effect-free buildModelActions)",
+            "that equal active sets give equal decision-variable values is C01's theorem; here it is only observed (exact float equality over every transfer)",
+        ],
+        "assumptions": [
+            "archive sizes are >= 1 for the round-trip clauses (the empty archive encodes to \"\" which Decode rejects: transcribed, shown as an example, outside the property's 'every number of actions')",
+            "refinement theorem: Decode arguments are texts the spec accepts for the archive's size; a Decode that fails after its first entry keeps the words already overwritten and the old memoised text (transcribed and compared; no property clause is evaluated on an archive in that state until its next successful mutation; counted in the histogram as 'quirk')",
+            "hypothesis H: no two actions of a model share (planning unit, type) - decidable, evaluated by the driver on every gathered action list",
+        ],
+        "level_text": "Unbounded proof: parseHex_toHex, decode_encode (every n >= 1), encode_injective, the refinement of the +mask/-mask word archive with memoised text to the list-of-booleans spec for every operation history (invariant: word count, unused high bits clear, cached text empty or current), decode_clears_high_bits, decode_result_class (every text), compress_decompress, sorted_perm_unique / action_order_portable / encoding_portable (every gathering order) are Lean theorems; the models are tied to BooleanArchive.go, ModelCompressor.go and ModelManagementActions.Less by a differential run on every check, and the portability clause is additionally evaluated directly on the real catchment model over all action sets of the shipped datasets (thorough).",
+        "level_note": "Trusted: Lean kernel; sort.Sort's contract (sorted permutation); strconv/fmt/strings behaviour as modelled and validated; harness/driver. Values after decoding rely on C01 (observed here, proved there).",
+    }
+
 # properties not (yet) claimed, with the reason; kept current as checks are added
 NOT_APPLICABLE = {
 }
